@@ -191,7 +191,8 @@ namespace detail
 		GLM_FUNC_QUALIFIER static vec<L, T, Q> call(vec<L, T, Q> const& x)
 		{
 			T const Shift(static_cast<T>(sizeof(T) * 8 - 1));
-			vec<L, T, Q> const y(vec<L, typename detail::make_unsigned<T>::type, Q>(-x) >> typename detail::make_unsigned<T>::type(Shift));
+			typedef typename detail::make_unsigned<T>::type U;
+			vec<L, T, Q> const y((vec<L, U, Q>(static_cast<U>(0)) - vec<L, U, Q>(x)) >> U(Shift)); // negate in the unsigned domain: -x overflows for the most negative value
 
 			return (x >> Shift) | y;
 		}
